@@ -2,6 +2,9 @@
 //       error and leaves its outputs untouched; nothing runs before the self tests; non-approved algorithms are always
 //       refused; XTS refuses key1 == key2.     (built against the FIPS_MODE variant of the library)
 #include "../common/entries.hpp"
+#include <atomic>
+#include <thread>
+#include <unistd.h>
 
 extern "C" {
 int asm_check_self_tests_status(void);
@@ -27,8 +30,9 @@ static volatile uint32_t *status_ptr()
         return p;
 }
 
-enum State { ST_FAILED = 0, ST_PASSED = 1, ST_FRESH_FAIL = 2, ST_FRESH_PASS = 3, NSTATE = 4 };
-static const char *state_name[] = { "failed", "passed", "not-run+failing-selftest", "not-run+passing-selftest" };
+// ST_WAIT_*: another thread is running the self tests (status RUNNING) when the call is made; the caller has to wait and then sees the published verdict
+enum State { ST_FAILED = 0, ST_PASSED = 1, ST_FRESH_FAIL = 2, ST_FRESH_PASS = 3, ST_WAIT_FAIL = 4, ST_WAIT_PASS = 5, NSTATE = 6 };
+static const char *state_name[] = { "failed", "passed", "not-run+failing-selftest", "not-run+passing-selftest", "running-elsewhere-then-fail", "running-elsewhere-then-pass" };
 
 // ---- link-time wrapped self tests (-Wl,--wrap): outcome injection + "entered before any output changed" probe
 static int g_inject_fail = 0, g_aes_entries = 0, g_sha_entries = 0;
@@ -93,6 +97,8 @@ static void set_state(int st)
         case ST_PASSED: asm_set_self_tests_status(0); break;
         case ST_FRESH_FAIL: asm_set_self_tests_status(2); g_inject_fail = 1; break;
         case ST_FRESH_PASS: asm_set_self_tests_status(2); break;
+        case ST_WAIT_FAIL:
+        case ST_WAIT_PASS: asm_set_self_tests_status(3); break; // SELF_TEST_RUNNING: somebody else has claimed the run
         }
 }
 
@@ -136,7 +142,21 @@ static bool run(const Case &c, pbt::Ctx &ctx)
         g_output_changed_before_selftest = false;
         g_aes_entries = g_sha_entries = 0;
         uint64_t ret = 0;
-        bool ok = guard::guarded_call(fi, [&] { ret = ent::invoke(call, call.argv); });
+        bool ok = true;
+        if (c.state == ST_WAIT_FAIL || c.state == ST_WAIT_PASS) {
+                // the call is made on a second thread while this thread plays the self-test runner that publishes the verdict a little later
+                std::atomic<int> started{ 0 };
+                std::thread th([&] {
+                        started.store(1);
+                        ok = guard::guarded_call(fi, [&] { ret = ent::invoke(call, call.argv); });
+                });
+                while (!started.load()) {}
+                usleep(150 + (unsigned) (c.seed % 400));
+                asm_set_self_tests_status(c.state == ST_WAIT_FAIL ? 1 : 0);
+                th.join();
+        } else {
+                ok = guard::guarded_call(fi, [&] { ret = ent::invoke(call, call.argv); });
+        }
         g_cur = nullptr;
         g_snap = nullptr;
         int status_after = (int) *status_ptr();
@@ -157,7 +177,7 @@ static bool run(const Case &c, pbt::Ctx &ctx)
         }
         std::string cn = A.check_canaries();
         if (!cn.empty() && failx("canary", cn)) return false;
-        bool failing = c.state == ST_FAILED || c.state == ST_FRESH_FAIL;
+        bool failing = c.state == ST_FAILED || c.state == ST_FRESH_FAIL || c.state == ST_WAIT_FAIL;
         ctx.label(std::string("state=") + state_name[c.state]);
         ctx.label("class=" + std::string(e->cls == ent::APPROVED ? "approved" : e->cls == ent::NONAPPROVED ? "non-approved" : "other"));
         ctx.nontrivial = c.state != ST_PASSED;
